@@ -88,3 +88,32 @@ Theorem C18_remove_ambiguous_refuted :
                 s_eyecite words cits true <> Ok (Filter.disambiguate is_resource has_guess [joke_cite]).
 Proof. exact get_citations_remove_ambiguous_counterexample. Qed.
 Print Assumptions C18_remove_ambiguous_refuted.
+
+(* ---- the same statements for the closed model (Model/E2EClosed.v: text and year in, citations out):
+   no hypothesis at all beyond those above ---- *)
+From EV Require Import Base.PyVal Model.Extract Model.E2E Model.RefEngine Model.E2EClosed Proofs.ClosedProofs.
+From EV Require Import Gen.Unicode Gen.Consts.
+
+Theorem C18_closed_year : forall this_year s ra l,
+  get_citations_closed this_year s ra = Ok l -> Forall (year_ok DT (Z.of_N highest_valid_year)) l.
+Proof. exact closed_year. Qed.
+Print Assumptions C18_closed_year.
+
+Theorem C18_closed_guess_candidates : forall this_year s ra l c e,
+  s <> s_eyecite -> get_citations_closed this_year s ra = Ok l -> In c l -> p_guess c = Some e ->
+  In e (candidates (editions_of ed_of_gen (t_exact (p_tok c))) (editions_of ed_of_gen (t_var (p_tok c)))).
+Proof. exact closed_guess_candidates. Qed.
+Print Assumptions C18_closed_guess_candidates.
+
+Theorem C18_closed_guess_singleton : forall this_year s ra l c e,
+  s <> s_eyecite -> get_citations_closed this_year s ra = Ok l -> In c l -> is_resource c = true ->
+  candidates (editions_of ed_of_gen (t_exact (p_tok c))) (editions_of ed_of_gen (t_var (p_tok c))) = [e] ->
+  p_guess c = Some e.
+Proof. exact closed_guess_singleton. Qed.
+Print Assumptions C18_closed_guess_singleton.
+
+Theorem C18_closed_remove_ambiguous : forall this_year s l,
+  s <> s_eyecite -> get_citations_closed this_year s false = Ok l ->
+  get_citations_closed this_year s true = Ok (Filter.disambiguate is_resource has_guess l).
+Proof. exact closed_remove_ambiguous. Qed.
+Print Assumptions C18_closed_remove_ambiguous.
